@@ -128,13 +128,14 @@ class Roles:
             if is_fancy_index(e.slice) or self._is_mask_name(fi, e.slice):
                 # .loc[mask] / .iloc[...] on frames with masks are copies when read
                 return set()
-            return self.with_alias({b + "[]" for b in base})
+            # element of a list/tuple literal: the element itself
+            return self.with_alias({(b[:-2] if b.endswith("<>") else b + "[]") for b in base})
         if isinstance(e, ast.Starred):
             return self.paths(fi, e.value)
         if isinstance(e, (ast.Tuple, ast.List)):
             out = set()
             for x in e.elts:
-                out |= self.paths(fi, x)
+                out |= {p + "<>" for p in self.paths(fi, x)}
             return out
         if isinstance(e, ast.IfExp):
             return self.paths(fi, e.body) | self.paths(fi, e.orelse)
@@ -269,7 +270,7 @@ class Roles:
                         if isinstance(n.target, ast.Tuple) and len(n.target.elts) == 2:
                             ch |= self._assign(fi, n.target.elts[1], None, {p + ".*" for p in objp}, site=site)
                         continue
-                ch |= self._assign(fi, n.target, None, {p + "[]" for p in it}, site=site)
+                ch |= self._assign(fi, n.target, None, {(p[:-2] if p.endswith("<>") else p + "[]") for p in it}, site=site)
             elif isinstance(n, (ast.With, ast.AsyncWith)):
                 for item in n.items:
                     if item.optional_vars is not None:
